@@ -63,7 +63,11 @@ var c17Ports = []string{"", "", "", ":80", ":8080", ":443", ":", ":0", ":65535"}
 
 func c17URL(c *core.Ctx, host string) string {
 	var sb strings.Builder
-	sb.WriteString(gen.Schemes[c.Rng.Intn(len(gen.Schemes))])
+	scheme := gen.Schemes[c.Rng.Intn(len(gen.Schemes))]
+	if c.Rng.Intn(12) == 0 {
+		scheme = strings.ToUpper(scheme)
+	}
+	sb.WriteString(scheme)
 	sb.WriteString("://")
 	if c.Rng.Intn(6) == 0 {
 		// mixed case
